@@ -396,6 +396,16 @@ def _f_first_arr(x):
     return x[:1]
 
 
+def _f_halves(x):
+    """float array result from integer data"""
+    return np.array([x[0] / 2, x[-1] / 2, x.mean()])
+
+
+def _f_frac_positive(x):
+    """float array result from boolean data"""
+    return np.array([x.mean(), 1.0 - x.mean()])
+
+
 def _f_bbox(x):
     return np.stack([x.min(axis=0), x.max(axis=0)])
 
@@ -433,6 +443,10 @@ APPLY = {
     "np_mean_axis0_coord": ("coord", np.mean, 0, "array"),
     "np_max_axis0_coord": ("coord", np.max, 0, "array"),
     "minmax_arr": ("int", _f_minmax, None, "array"),
+    # array results whose dtype differs from the dtype of the data
+    "np_mean_axis0_intvec": ("intvec", np.mean, 0, "array"),
+    "halves_from_int": ("int", _f_halves, None, "array"),
+    "fractions_from_bool": ("bool", _f_frac_positive, None, "array"),
     "first_arr": ("int", _f_first_arr, None, "array"),
     "bbox_2d": ("coord", _f_bbox, None, "array"),
     "zero_d": ("int", _f_zero_d, None, "array"),
@@ -459,6 +473,8 @@ def gen_data(rng, kind, n):
         return rng.random(n) < 0.5
     if kind == "coord":
         return (rng.integers(-40, 40, (n, 3)) / 4).astype(np.float32)
+    if kind == "intvec":
+        return rng.integers(-9, 10, (n, 2)).astype(np.int64)
     if kind == "str":
         return np.array([NAMES[int(i)] for i in rng.integers(len(NAMES), size=n)], dtype="U5")
     if kind == "str1":
